@@ -26,8 +26,12 @@ package main
 //    reference value (Ambig); << and >> together, & alone, | alone are folded
 //    left to right (S1 "equal levels left to right").
 //  * whether a prefix - or ! binds tighter than ^ (-x^2): both parses accepted.
-//  * whether implied multiplication binds like * or tighter (6/2(3)): both
-//    parses accepted.
+//  * (withdrawn in round 6: "whether implied multiplication binds like * or
+//    tighter (6/2(3))". S2 lists implied multiplication as a feature of the
+//    formula and S1 gives multiplication one level, so a/b(c) is a/b*(c); the
+//    implied family (implied.go) demands exactly that equality, and the
+//    reference no longer offers the tighter parse. parseFlags.juxtTight is
+//    kept for the record but is in no enumerated flag set.)
 //  * the value of the integer operators % << >> & | on non-integers, values
 //    outside int64, a zero or negative modulus, negative dividends, shift
 //    counts outside 0..63 or overflowing shifts; the truth value of NaN:
@@ -708,7 +712,7 @@ func sameNumber(a, b float64) bool {
 }
 
 // allFlagSets are the parses the statement leaves open.
-var allFlagSets = []parseFlags{{false, false}, {true, false}, {false, true}, {true, true}}
+var allFlagSets = []parseFlags{{false, false}, {true, false}}
 
 // refValues returns the accepted values of a well-formed formula under one
 // binding. anyUndef means some admissible parse has no determined value.
